@@ -645,7 +645,8 @@ class StrengthModel:
         strongContributions = np.array(strongContributions)
         strongContributions[(strongContributions < 0) | ~np.isfinite(strongContributions)] = 0
         tauowo = np.array(self.orowan(rss, Ls))
-        tauowo[~np.isfinite(tauowo)] = 0
+        #log(2*r/ri) < 0 for radii below half the dislocation core radius: clip like the weak and strong terms
+        tauowo[(tauowo < 0) | ~np.isfinite(tauowo)] = 0
         return weakContributions, strongContributions, tauowo, contributionsList
     
     def combineStrengthContributions(self, weakContributions, strongContributions, orowan, returnComparison = False):
@@ -783,7 +784,7 @@ class StrengthModel:
         if contribution is not None:
             if contribution.lower() == 'orowan':
                 tauowo = np.array(self.orowan(r, Ls))
-                tauowo[~np.isfinite(tauowo)] = 0
+                tauowo[(tauowo < 0) | ~np.isfinite(tauowo)] = 0
                 ax.plot(x, self.M * tauowo / yscale, *args, **kwargs)
                 ax.set_ylabel(r'$\tau_{orowan}$ (' + strengthUnits + ')')
                 ax.set_ylim(bottom=0)
